@@ -1,5 +1,6 @@
 """Statement semantics, loops by invariant, exceptions, function verification driver."""
 import ast
+import re
 
 import z3
 
@@ -658,8 +659,12 @@ class Exec(Verifier):
         ordinal = fr.loop_ord.get(id(s))
         spec = fr.contract.loops.get(ordinal) if fr.contract is not None else None
         if spec is not None and spec.header is not None:
-            if " ".join(spec.header.split()) != header_text(s):
+            if _norm_header(" ".join(spec.header.split())) != _norm_header(header_text(s)):
                 raise SourceError("%s: loop #%s is `%s`, the contract expects `%s`" % (fr.fname, ordinal, header_text(s), spec.header))
+        if spec is None and getattr(fr, "auto_inline", False):
+            # a loop inside a helper that has no contract at all: executing it with an empty invariant would make every
+            # later failure a statement about the missing invariant, not about the code
+            raise Unsupported("loop `%s` in %s, which has no contract (no invariant to verify it with)" % (header_text(s), fr.fname))
         return ordinal, spec
 
     def st_While(self, s):
@@ -1066,11 +1071,23 @@ class Exec(Verifier):
             for g in con.ghost:
                 if g.where == "exit":
                     continue
-                if g.anchor.endswith("..."):
+                if g.anchor.startswith("call:"):
+                    # the simple statement that calls a function / method of this name, whatever the receiver expression,
+                    # the arguments or the variable the result is bound to (robust against caching / renaming refactorings)
+                    cname = g.anchor[5:]
+                    hits = [st_ for st_ in stmts if isinstance(st_, (ast.Expr, ast.Assign, ast.AnnAssign, ast.AugAssign, ast.Return))
+                            and any(isinstance(n_, ast.Call) and ((isinstance(n_.func, ast.Attribute) and n_.func.attr == cname)
+                                                                   or (isinstance(n_.func, ast.Name) and n_.func.id == cname))
+                                    for n_ in _walk_no_nested(st_))]
+                elif g.anchor.endswith("..."):
                     hits = [st_ for st_ in stmts if header_text(st_).startswith(g.anchor[:-3])]
                 else:
                     hits = [st_ for st_ in stmts if header_text(st_) == g.anchor]
                 if len(hits) <= g.occurrence and g.optional:
+                    # the ghost code is not executed: state it would have set is out of date (reported to the driver)
+                    if not hasattr(self, "stale_notes"):
+                        self.stale_notes = set()
+                    self.stale_notes.add("%s: optional ghost anchor `%s` not found in the real source" % (qualname, g.anchor))
                     continue
                 if len(hits) <= g.occurrence:
                     raise SourceError("%s: ghost anchor `%s` (occurrence %d) not found in the real source" % (qualname, g.anchor, g.occurrence))
@@ -1078,7 +1095,7 @@ class Exec(Verifier):
                 (fr.ghost_before if g.where == "before" else fr.ghost_after).setdefault(id(tgt), []).append(g.code)
         return fr
 
-    def inline_call(self, rel, qualname, fdef, selfv, args, kwargs, clsval=None):
+    def inline_call(self, rel, qualname, fdef, selfv, args, kwargs, clsval=None, auto=False):
         if self.call_depth > 12:
             raise Unsupported("inline depth exceeded at %s" % qualname)
         env = self.bind_args(fdef, selfv, args, kwargs, clsval)
@@ -1089,6 +1106,7 @@ class Exec(Verifier):
             if nme in env and isinstance(env[nme], V):
                 env[nme] = self.coerce(env[nme], tstr)
         fr = self.make_frame(rel, qualname, fdef, con, set(env))
+        fr.auto_inline = auto or getattr(saved_frame, "auto_inline", False)
         self.frame = fr
         self.st.loc = env
         self.call_depth += 1
@@ -1149,7 +1167,8 @@ class Exec(Verifier):
                 pseen.add(k)
                 probes.append(pr)
         return {"obligations": obls, "probes": probes, "paths": paths, "path_ends": ends, "trivial": self.trivial,
-                "ghost_assumes": sorted(set(self.ghost_assumes)), "applied_contracts": sorted(getattr(self, "applied_contracts", ()))}
+                "ghost_assumes": sorted(set(self.ghost_assumes)), "applied_contracts": sorted(getattr(self, "applied_contracts", ())),
+                "stale_notes": sorted(getattr(self, "stale_notes", ()))}
 
     def run_path(self, con, fdef):
         decos = [ast.unparse(d) for d in fdef.decorator_list]
@@ -1378,6 +1397,11 @@ def _dummy_frame(con):
     fr.loop_ord, fr.unbound_locals, fr.ghost_before, fr.ghost_after = {}, set(), {}, {}
     fr.narrow = None
     return fr
+
+
+def _norm_header(h):
+    """`while len(x) > 0:` / `while len(x) != 0:` / `while len(x):` / `while x:` are the same loop (truth value of a container)."""
+    return re.sub(r"^while len\(([\w\.]+)\)(?: > 0| != 0| >= 1)?:$", r"while \1:", h)
 
 
 def _walk_no_nested(node):
